@@ -10,7 +10,7 @@
     by PqStatsTrace (TLC, rank codes) and by an exact-integer judge here (concrete i64); the two must agree.
 """
 import concurrent.futures as cf
-import copy, json, os, random, shutil
+import copy, json, os, random, re, shutil
 import vlib
 from vlib import run_tlc, tlc_must_pass, qev, write_ndjson, read_ndjson, validate_trace, NULL
 
@@ -19,6 +19,7 @@ KNOWN = "C18/minmax-partial-stats"
 TOKENS = [-9, -2, 0, 1, 5, 9]
 TYPES = ("int32", "int64", "date32")
 LIMITS = {"int32": (-2**31, 2**31 - 1), "date32": (-2**31, 2**31 - 1), "int64": (-2**63, 2**63 - 1)}
+KNOWN_WRAP = "C18/dense-groupby-width-wraps"
 MUTANTS = {"nulls_first_file": "NullCountExactWhenPresent", "wrong_fold": "MinMaxBound",
            "rowcount_heuristic": "RowCountExact", "stale_cache": "RowCountExact"}
 LAYOUTS = {"quick": [(1,), (2,), (1, 1), (2, 1), (1, 2), (2, 2)], "thorough": [(1,), (2,), (1, 1), (2, 1), (1, 2), (2, 2)]}
@@ -204,6 +205,13 @@ def describe(r, v):
     return "; ".join(sorted(set(out)))
 
 
+def width_wraps(r):
+    """shape of C18/dense-groupby-width-wraps: int64 key column, min/max in every chunk, overall MIN..MAX"""
+    ch = [g for f in r["cols"][0]["foot"] for g in f]
+    return (r["ty"] == "int64" and ch and all(g["has_stats"] == 1 and g["has_mm"] == 1 for g in ch)
+            and min(g["min"] for g in ch) == LIMITS["int64"][0] and max(g["max"] for g in ch) == LIMITS["int64"][1])
+
+
 def answers_truth(r):
     c, d = flat(r["cols"][0]["truth"]), flat(r["cols"][1]["truth"])
     nn = [x for x in c if x is not None]
@@ -245,16 +253,27 @@ def check_records(ctx, recs, cases_by_id, name):
         for q, sql in STMTS:
             a = r[q]
             if a.get("panic"):
-                if any_partial and ctx.is_known(KNOWN):
+                # the same rows written WITHOUT statistics: only a panic the statistics cause is this property's
+                caused = not (a.get("ctl") or {}).get("panic")
+                if not caused:
+                    ctx.add("foreign_panics")
+                    if ctx.cov.get("foreign_panics", 0) <= 3:
+                        ctx.notes.append(f"foreign: `{sql}` panics on case {r['id']} ({r['ty']}) with and without footer statistics: {a.get('err')}")
+                elif q == "q2" and width_wraps(r) and ctx.is_known(KNOWN_WRAP):
+                    ctx.known(KNOWN_WRAP, {"ty": r["ty"], "why": f"`{sql}` panicked: {a.get('err')}", "c": r["cols"][0]["truth"],
+                                           "flags": r["cols"][0]["flags"]})
+                elif any_partial and ctx.is_known(KNOWN):
                     ctx.known(KNOWN, {"ty": r["ty"], "why": f"`{sql}` panicked on a partially covered table: {a.get('err')}",
                                       "files": [c["truth"] for c in r["cols"]], "flags": [c["flags"] for c in r["cols"]]})
                 else:
-                    ctx.violation(case_of(r, cases_by_id), f"`{sql}` panicked on a table whose statistics are "
-                                  f"{'sound' if not is_bad(pv) else 'unsound'}: {a.get('err')}")
+                    ctx.violation(case_of(r, cases_by_id), f"`{sql}` panicked because of the footer statistics (the same rows written without "
+                                  f"statistics are answered) on a table whose reported statistics are {'sound' if not is_bad(pv) else 'unsound'}: {a.get('err')}")
             elif not a.get("ok"):
                 ctx.add("statement_errors")
                 if ctx.cov.get("statement_errors", 0) <= 3:
-                    ctx.notes.append(f"foreign: `{sql}` refused on case {r['id']} ({r['ty']}): {a.get('err')}")
+                    only = (a.get("ctl") or {}).get("ok") == 1
+                    ctx.notes.append(f"foreign: `{sql}` refused on case {r['id']} ({r['ty']})"
+                                     f"{' only when the footers carry statistics (the same rows without statistics are answered)' if only else ''}: {a.get('err')}")
             elif a["rows"] != truth[q]:
                 if pv["known"] or (any_partial and is_bad(pv)):
                     ctx.add("wrong_answers_on_unsound_bounds")
@@ -353,40 +372,66 @@ def model_rep_codes(col, ty):
 
 
 # ------------------------------------------------------------------ run
+def kill_matrix(out):
+    """PqStats_kill.cfg runs with -continue: {impl: {invariant: number of rejected tables}} from every reported violation."""
+    parts = re.split(r"Error: Invariant (\w+) is violated\.", out)
+    m, first = {}, {}
+    for inv, body in zip(parts[1::2], parts[2::2]):
+        i = re.search(r'/\\ impl = "(\w+)"', body)
+        if not i:
+            continue
+        d = m.setdefault(i.group(1), {})
+        d[inv] = d.get(inv, 0) + 1
+        first.setdefault(i.group(1), body[:6000])
+    return m, first
+
+
 def model_runs(ctx, quick):
     t = ctx.tier
-    runs = [(f"PqStats_{t}.cfg", "fixed fold meets RowCountExact / NullCountExactWhenPresent / MinMaxBound on ALL tables; every table emitted", None, True),
-            (f"PqStats_asbuilt_ok_{t}.cfg", "as-built fold (the real code) meets the contract on every table off the partial-statistics shape", None, True),
-            ("PqStats_small_ok.cfg", "fixed fold on the small universe of the counterexample / kill-matrix runs", None, False),
-            ("PqStats_asbuilt_cex.cfg", "as-built fold, partial statistics allowed: TLC finds the MinMaxBound counterexample", "MinMaxBound", False)]
-    runs += [(f"PqStats_mut_{m}.cfg", f"mutant fold {m} is rejected", inv, False) for m, inv in MUTANTS.items()]
+    allimpl = 'all six folds on the small universe, -continue: "fixed" is never rejected, "asbuilt" only by MinMaxBound, every mutant by some invariant'
+    runs = [(f"PqStats_{t}.cfg", "fixed fold meets RowCountExact / NullCountExactWhenPresent / MinMaxBound on ALL tables; every table emitted", "pass", 3 if quick else 6),
+            (f"PqStats_asbuilt_ok_{t}.cfg", "as-built fold (the real code) meets the contract on every table off the partial-statistics shape", "pass", 3 if quick else 6),
+            ("PqStats_kill.cfg", allimpl, "kill", 2)]
+    if not quick:
+        runs.append(("PqStats_asbuilt_cex.cfg", "as-built fold, partial statistics allowed: TLC finds the MinMaxBound counterexample", "MinMaxBound", 1))
 
     def one(r):
-        cfg, label, expect, big = r
-        return r, run_tlc("PqStats", cfg, workers=((3 if quick else 6) if big else 1), timeout=3400, heap="6g" if big else "2g",
-                          tag="C18-" + cfg[:-4], coverage=(big and not quick))
-    with cf.ThreadPoolExecutor(max_workers=(4 if quick else 3)) as ex:
+        cfg, label, mode, wk = r
+        return r, run_tlc("PqStats", cfg, workers=wk, timeout=3400, heap="6g" if mode == "pass" else "2g", tag="C18-" + cfg[:-4],
+                          coverage=(mode == "pass" and not quick), extra=(["-continue"] if mode == "kill" else None))
+    with cf.ThreadPoolExecutor(max_workers=4) as ex:
         results = list(ex.map(one, runs))
     tables = None
-    kills = {}
-    for (cfg, label, expect, big), res in results:
+    for (cfg, label, mode, wk), res in results:
         ctx.tlc_stats(res, f"{cfg}: {label}")
-        if expect:
-            if res.error:
-                raise vlib.ToolError(f"TLC error in {cfg}: {res.error[:300]}")
-            if res.violated != expect:
-                raise vlib.ToolError(f"{cfg}: expected TLC to reject with {expect}, got {res.violated} (spec drift / vacuous invariant)")
-            kills[cfg[8:-4]] = expect
-        else:
+        if mode == "pass":
             tlc_must_pass(res, cfg)
-            if big and not quick:
+            if not quick:
                 for act in ("OpenFile", "WriteRowGroup", "Report"):
                     if res.coverage.get(act, 0) == 0:
                         raise vlib.ToolError(f"{cfg}: action {act} never taken")
             if res.cases:
                 tables = res.cases
-    ctx.set("kill_matrix", kills)
-    ctx.set("model_reproduces_partial_stats_defect", True)
+        elif mode == "kill":
+            if res.error or "0 states left on queue" not in res.out:
+                raise vlib.ToolError(f"TLC did not complete {cfg}: {str(res.error)[:300]}")
+            m, first = kill_matrix(res.out)
+            ctx.set("kill_matrix", m)
+            if "fixed" in m:
+                raise vlib.ToolError(f"{cfg}: the repaired fold is rejected: {m['fixed']}")
+            if set(m.get("asbuilt", {})) != {"MinMaxBound"}:
+                raise vlib.ToolError(f"{cfg}: expected the as-built fold to be rejected by MinMaxBound and nothing else, got {m.get('asbuilt')} (spec drift)")
+            for mut, inv in MUTANTS.items():
+                if inv not in m.get(mut, {}):
+                    raise vlib.ToolError(f"{cfg}: mutant fold {mut} is not rejected by {inv}: {m.get(mut)} (vacuous invariant)")
+            ctx.set("model_reproduces_partial_stats_defect", True)
+            ctx.set("model_counterexample_asbuilt", [l.strip() for l in first["asbuilt"].splitlines()
+                                                     if l.startswith(("/\\ files", "/\\ flags", "/\\ rep ", "/\\ pc"))][:28][-4:])
+        else:
+            if res.error:
+                raise vlib.ToolError(f"TLC error in {cfg}: {res.error[:300]}")
+            if res.violated != mode:
+                raise vlib.ToolError(f"{cfg}: expected TLC to reject with {mode}, got {res.violated} (spec drift / vacuous invariant)")
     if not tables or len(tables) < 10000:
         raise vlib.ToolError(f"the model emitted only {len(tables or [])} tables")
     return tables
@@ -400,7 +445,7 @@ def run(ctx):
     for lay in LAYOUTS[ctx.tier]:
         if not any(tuple(t["layout"]) == lay for t in tables):
             raise vlib.ToolError(f"layout {lay} never emitted by the model")
-    cases = build_cases(tables, rng, 4 if quick else 40, 900 if quick else 14000)
+    cases = build_cases(tables, rng, 3 if quick else 50, 600 if quick else 12000)
     cases += handmade(len(cases))
     cases_by_id = {c["id"]: {k: c[k] for k in ("id", "writer", "cols", "tags")} for c in cases}
     recs = run_real(ctx, [{"id": c["id"], "writer": c["writer"], "tags": c["tags"],
